@@ -30,10 +30,14 @@ CONSTANTS NX, NY, NZ,     \* lattice
           Variant,        \* "doc" or a negative instance
           HaloMode,       \* "few" | "all": which per-axis (wrap, symmetry) configurations are enumerated
           NumFields,      \* number of Step-separated field states per run
-          NumWidths       \* 1 = uniform only, 2, 3 = plus stretched patterns
+          NumWidths,      \* 1 = uniform only, 2, 3 = plus stretched patterns
+          Parts           \* the detector list is dealt round-robin to this many independent runs (parallelism only)
 
-VARIABLES cfg, wp, fid, E, Hp, H, di, det, rec
-vars == << cfg, wp, fid, E, Hp, H, di, det, rec >>
+VARIABLES cfg, wp, fid, E, Hp, H,     \* configuration, width pattern, field state (Hp = H of before the step)
+          EP, HP, full,                  \* padded E, padded Hprev + H (= 2 H_avg), the shared full-domain interpolation
+          want,                          \* ghost: the definitional formula on the whole domain for the current fields
+          part, di, det, rec             \* share of the detector list, loop index, the detector that recorded last, its record
+vars == << cfg, wp, fid, E, Hp, H, EP, HP, full, want, part, di, det, rec >>
 
 N == << NX, NY, NZ >>
 Poison == 100003          \* what a read outside the allocated array yields
@@ -124,12 +128,20 @@ BlockRaw(d, m, r) ==
     Halve(m, Interp(LAMBDA c, l : IF m <= 3 THEN RawRead(E, c, Glob(d, l)) ELSE RawRead(Hp, c, Glob(d, l)) + RawRead(H, c, Glob(d, l)),
                     LAMBDA a, x : BlockCW(d, a, x), LAMBDA a, x : BlockPW(d, a, x), m, r))
 \* the same block computation on the PADDED arrays (padded index = domain index + 1): defined for every box
-PadRead(m, c, l) == IF m <= 3 THEN ImplPad(E, "E", c, l) ELSE ImplPad(Hp, "H", c, l) + ImplPad(H, "H", c, l)
 BlockPadded(d, m, r) ==
-    Halve(m, Interp(LAMBDA c, l : PadRead(m, c, << d.s[1] + l[1], d.s[2] + l[2], d.s[3] + l[3] >>),
+    Halve(m, Interp(LAMBDA c, l : At(IF m <= 3 THEN EP ELSE HP, c, << d.s[1] + l[1], d.s[2] + l[2], d.s[3] + l[3] >>),
                     LAMBDA a, x : BlockCW(d, a, x), LAMBDA a, x : BlockPW(d, a, x), m, r))
-\* fallback path: interpolate_fields on the whole padded domain (no region_slice), value at domain cell q
-Full(m, q) == Halve(m, Interp(LAMBDA c, l : PadRead(m, c, l), LAMBDA a, x : CW(W, a, x), LAMBDA a, x : PW(W, a, x), m, q))
+
+\* padded arrays (computed once per step, like the code)
+PadArr(A, ft) == [ c \in 0..2 |-> [ l1 \in 0..(NX + 1) |-> [ l2 \in 0..(NY + 1) |-> [ l3 \in 0..(NZ + 1) |->
+                    ImplPad(A, ft, c, << l1, l2, l3 >>) ] ] ] ]
+SumArr(A, B) == Arr(LAMBDA c, p : At(A, c, p) + At(B, c, p))
+\* fallback path: interpolate_fields on the whole padded domain (no region_slice), shared by all edge detectors
+FullArr(EPa, HPa) == [ m \in 1..6 |-> [ i \in 0..(NX - 1) |-> [ j \in 0..(NY - 1) |-> [ k \in 0..(NZ - 1) |->
+    Halve(m, Interp(LAMBDA c, l : At(IF m <= 3 THEN EPa ELSE HPa, c, l), LAMBDA a, x : CW(W, a, x), LAMBDA a, x : PW(W, a, x), m, << i, j, k >>)) ] ] ] ]
+\* ghost: the definitional formula (ColocateDefs) on the whole domain
+WantArr(Ea, Hpa, Ha) == [ m \in 1..6 |-> [ i \in 0..(NX - 1) |-> [ j \in 0..(NY - 1) |-> [ k \in 0..(NZ - 1) |->
+    ExactVal(LAMBDA c, p : At(Ea, c, p), LAMBDA c, p : At(Hpa, c, p), LAMBDA c, p : At(Ha, c, p), N, W, Lo, Hi, m, << i, j, k >>) ] ] ] ]
 
 ImplIsInterior(d) ==
     \A a \in 1..3 : d.s[a] >= 1 /\ d.e[a] <= (IF Variant = "interior_e_le_N" THEN N[a] ELSE N[a] - 1)
@@ -140,46 +152,53 @@ ImplRecord(d) ==
         LET q == << d.s[1] + r[1], d.s[2] + r[2], d.s[3] + r[3] >> IN
         IF ~d.exact THEN (IF m <= 3 THEN << At(E, m - 1, q), 1 >> ELSE << At(H, m - 4, q), 1 >>)
         ELSE IF ImplIsInterior(d) THEN BlockRaw(d, m, r)
-        ELSE Full(m, q) ] ]
+        ELSE At(full, m, q) ] ]
 
 \* ---------------------------------------------------------------- state machine
+\* nothing is loaded yet: the first Step produces field state 0 (kept out of Init so that TLC works on the configurations in parallel)
 Init == /\ cfg \in Cfgs
         /\ wp \in 0..(NumWidths - 1)
-        /\ fid = 0
-        /\ E = EField(0) /\ Hp = HField(0) /\ H = HField(1)
-        /\ di = 0 /\ det = NoDet /\ rec = << >>
+        /\ part \in 1..Parts
+        /\ fid = -1
+        /\ E = << >> /\ Hp = << >> /\ H = HField(0)
+        /\ EP = << >> /\ HP = << >> /\ full = << >> /\ want = << >>
+        /\ di = Len(Dets) /\ det = NoDet /\ rec = << >>
 
-Record == /\ di < Len(Dets)
-          /\ di' = di + 1
-          /\ det' = Dets[di + 1]
-          /\ rec' = ImplRecord(Dets[di + 1])
-          /\ UNCHANGED << cfg, wp, fid, E, Hp, H >>
+\* `for d in to_update`: this run's detectors are part, part + Parts, part + 2 Parts, ...
+Record == /\ fid >= 0
+          /\ di + Parts <= Len(Dets)
+          /\ di' = di + Parts
+          /\ det' = Dets[di + Parts]
+          /\ rec' = ImplRecord(Dets[di + Parts])
+          /\ UNCHANGED << cfg, wp, part, fid, E, Hp, H, EP, HP, full, want >>
 
-Step == /\ di = Len(Dets)
+Step == /\ di + Parts > Len(Dets)
         /\ fid + 1 < NumFields
         /\ fid' = fid + 1
         /\ E' = EField(fid + 1) /\ Hp' = H /\ H' = HField(fid + 2)
-        /\ di' = 0 /\ det' = NoDet /\ rec' = << >>
-        /\ UNCHANGED << cfg, wp >>
+        /\ EP' = PadArr(E', "E") /\ HP' = PadArr(SumArr(Hp', H'), "H")
+        /\ full' = FullArr(EP', HP')
+        /\ UNCHANGED << cfg, wp, part >>
+        /\ want' = WantArr(E', Hp', H')
+        /\ di' = part - Parts /\ det' = NoDet /\ rec' = << >>
 
 Next == Record \/ Step
 Spec == Init /\ [][Next]_vars
 
 \* ---------------------------------------------------------------- properties
-Recorded == di > 0
+Recorded == fid >= 0 /\ di >= 1 /\ det # NoDet
 QOf(r) == << det.s[1] + r[1], det.s[2] + r[2], det.s[3] + r[3] >>
 FE(c, p) == At(E, c, p)
-FHp(c, p) == At(Hp, c, p)
 FH(c, p) == At(H, c, p)
 
 TypeOK == Recorded => DOMAIN rec = 1..6 /\ \A m \in 1..6 : DOMAIN rec[m] = Cells(Shape(det))
 
 RecordIsFormula == Recorded =>
     \A m \in 1..6, r \in Cells(Shape(det)) :
-        RatEq(rec[m][r], IF det.exact THEN ExactVal(FE, FHp, FH, N, W, Lo, Hi, m, QOf(r)) ELSE RawVal(FE, FH, m, QOf(r)))
+        RatEq(rec[m][r], IF det.exact THEN At(want, m, QOf(r)) ELSE RawVal(FE, FH, m, QOf(r)))
 
 PathsAgree == (Recorded /\ det.exact) =>
-    \A m \in 1..6, r \in Cells(Shape(det)) : RatEq(BlockPadded(det, m, r), Full(m, QOf(r)))
+    \A m \in 1..6, r \in Cells(Shape(det)) : RatEq(BlockPadded(det, m, r), At(full, m, QOf(r)))
 
 \* every read of an interior block stays inside the domain (so the raw block equals the padded block)
 BlockInDomain == (Recorded /\ det.exact /\ Interior(N, det.s, det.e)) =>
